@@ -9,6 +9,7 @@ package dig_test
 import (
 	"bytes"
 	"errors"
+	"fmt"
 	"io"
 	"strings"
 	"testing"
@@ -255,4 +256,30 @@ func TestDefectD20TypedNilFunc(t *testing.T) {
 		_ = c2.Decorate((func(*dA) *dA)(nil))
 		_ = c2.Invoke(func(*dA) {})
 	})
+}
+
+type d21Stringer struct{ n int }
+
+func (s *d21Stringer) String() string { return fmt.Sprint(s.n) }
+
+// D21 (C10, rule G-as-distinct): an interface listed twice in dig.As fed a
+// value group twice from one constructor.
+func TestDefectD21GroupAsListedTwice(t *testing.T) {
+	c := dig.New()
+	err := c.Provide(func() *d21Stringer { return &d21Stringer{1} },
+		dig.Group("g"), dig.As(new(fmt.Stringer), new(fmt.Stringer)))
+	if err != nil {
+		return // rejected: fine
+	}
+	type in struct {
+		dig.In
+		S []fmt.Stringer `group:"g"`
+	}
+	if err := c.Invoke(func(i in) {
+		if len(i.S) != 1 {
+			t.Errorf("one constructor fed group g %d times", len(i.S))
+		}
+	}); err != nil {
+		t.Fatal(err)
+	}
 }
